@@ -2269,6 +2269,14 @@ func (vc *VC) GenerateLemmas(lemmas []*Clause) (err error) {
 			vc.obls = append(vc.obls, obls...)
 			continue
 		}
+		if l.Kind == "recovers" {
+			obls, err := vc.P.EvalRecoversClause(l, vc.key)
+			if err != nil {
+				return err
+			}
+			vc.obls = append(vc.obls, obls...)
+			continue
+		}
 		if l.Kind == "noeq" {
 			obls, err := vc.P.EvalNoEqClause(l, vc.key)
 			if err != nil {
